@@ -226,6 +226,79 @@ def escaped_flag_rule(rep, f):
     rep.floor("C03.d", n, 8)
 
 
+def eol_rule(rep):
+    from ..engines import advance
+    rep.rule("C03.e", "end-of-line handling (XML 1.0 2.11, XML 1.1 2.11): XMLReader::handleEOL, the one place where line ends are "
+             "folded, interpreted for every combination of (character, following character, whether that character is already in the "
+             "buffer / arrives with a refill / does not exist, external or internal entity, NEL recognition on or off): in an external "
+             "entity CR LF and (with NEL recognition) CR NEL become one LF — the second character is consumed also when it only "
+             "arrives with the refill — a lone CR becomes LF, NEL and LSEP become LF exactly when NEL recognition is on, every other "
+             "character is untouched; in an internal entity nothing is changed or consumed; each folded line end counts one line")
+    g = core.run_xa([os.path.join(core.REPO, "src/xercesc/internal/XMLReader.cpp")], st=r"^XMLReader::handleEOL$", flat=False)
+    body = g.st("XMLReader::handleEOL")["body"]
+    enums = {}
+    for x in sx_walk(body):
+        if isinstance(x, list) and x and x[0] == "e":
+            enums[x[1].split("::")[-1]] = x[2]
+    if "Source_External" not in enums:
+        raise AnalysisBroken("handleEOL no longer distinguishes external entities (Source_External)")
+    CR, LF, NEL, LSEP = 0x0D, 0x0A, 0x85, 0x2028
+    names = {CR: "CR", LF: "LF", NEL: "NEL", LSEP: "LSEP", 0x61: "'a'", 0x62: "'b'"}
+    n = 0
+    for cur in (CR, LF, NEL, LSEP, 0x61):
+        for nxt in (LF, NEL, 0x62):
+            for avail in ("buffered", "refill", "none"):
+                for ext in (1, 0):
+                    for nel in (0, 1):
+                        START = 100
+
+                        def arr(i, st, nxt=nxt):
+                            return nxt if (i == START and st.v["f:XMLReader::fCharsAvail"] > START) else advance.TOP
+
+                        def hook(x, st, it, avail=avail):
+                            if x[1].split("::")[-1] == "refreshCharBuffer":
+                                if avail == "refill":
+                                    st.v["f:XMLReader::fCharsAvail"] = START + 1
+                                    return 1
+                                return 0
+                            return NotImplemented
+                        env = {"p:curCh": cur, "p:inDecl": 0, "g:chCR": CR, "g:chLF": LF, "g:chNEL": NEL, "g:chLineSeparator": LSEP,
+                               "f:XMLReader::fCharIndex": START, "f:XMLReader::fCharsAvail": START + (1 if avail == "buffered" else 0),
+                               "f:XMLReader::fSource": enums["Source_External"] if ext else enums["Source_External"] + 1,
+                               "f:XMLReader::fNEL": nel, "f:XMLReader::fCurLine": 10, "f:XMLReader::fCurCol": 5,
+                               "arr:XMLReader::fCharBuf": arr}
+                        it = advance.Interp(call_hook=hook)
+                        outs = set()
+                        for kind, s2 in it.run(body, advance.State(env)):
+                            outs.add((s2.v.get("p:curCh"), s2.v.get("f:XMLReader::fCharIndex") - START, s2.v.get("f:XMLReader::fCurLine") - 10))
+                        if ext:
+                            if cur == CR:
+                                eat = 1 if (avail != "none" and (nxt == LF or (nxt == NEL and nel))) else 0
+                                want = (LF, eat, 1)
+                            elif cur == LF:
+                                want = (LF, 0, 1)
+                            elif cur in (NEL, LSEP):
+                                want = (LF, 0, 1) if nel else (cur, 0, 0)
+                            else:
+                                want = (cur, 0, 0)
+                        else:
+                            want = (cur, 0, None)       # line accounting of internal entities is not prescribed
+                        got_ok = len(outs) == 1 and all(o[0] == want[0] and o[1] == want[1] and (want[2] is None or o[2] == want[2]) for o in outs)
+                        n += 1
+                        key = "%s+%s/%s/%s/nel=%d" % (names[cur], names[nxt], avail, "external" if ext else "internal", nel)
+
+                        def show(o):
+                            return "delivers %s, consumes %s following character(s), counts %s line(s)" % (
+                                names.get(o[0], o[0]), o[1], "?" if o[2] is None else o[2])
+                        rep.ob("C03.e", key, got_ok, show(want) if got_ok else
+                               "XMLReader::handleEOL for %s followed by %s (%s) in an %s entity with NEL recognition %s: %s; required: %s" % (
+                                   names[cur], names[nxt], {"buffered": "already in the buffer", "refill": "arriving with the next refill",
+                                                            "none": "no further character"}[avail], "external" if ext else "internal",
+                                   "on" if nel else "off", " | ".join(show(o) for o in sorted(outs, key=str)), show(want)),
+                               "src/xercesc/internal/XMLReader.cpp")
+    rep.floor("C03.e", n, 150)
+
+
 def run(rep):
     f = core.library_facts()
     rep.units.update(os.path.relpath(t, core.REPO) for t in f.tus)
@@ -235,6 +308,7 @@ def run(rep):
     eoe_rule(rep, f)
     collapse_rule(rep)
     escaped_flag_rule(rep, f)
+    eol_rule(rep)
     rep.undecided += ["every value-level clause: line-end and attribute-value normalisation, entity expansion results, character references, "
                       "DTD defaulting, line numbers — not applicable to static analysis",
                       "that the forwarded arguments are the right ones"]
